@@ -133,6 +133,8 @@ structure St where
   members : List Nat
   /-- ghost: number of arrivals that were told to be the serial fiber -/
   serials : Nat
+  /-- ghost: `told k` = number of fibers that were told to be the serial fiber in their k-th wait -/
+  told : Nat → Nat
 
 def Q.tailNode (a : Q) : Nat :=
   match a.order.getLast? with
@@ -151,7 +153,8 @@ def initQ (stub : Nat) : Q :=
 /-- queue `i` starts with stub node `i + 1`; fiber `k` starts out owning node `nodeOf k` -/
 def init (nodeOf : Nat → Nat) : St :=
   { counter := 0, q := fun i => initQ (i + 1), fnode := nodeOf, ndata := fun _ => 0,
-    pc := fun _ => .idle, rnd := fun _ => 0, entered := fun _ => 0, members := [], serials := 0 }
+    pc := fun _ => .idle, rnd := fun _ => 0, entered := fun _ => 0, members := [], serials := 0,
+    told := fun _ => 0 }
 
 /-- what the serial fiber does after a wake-up is complete: loop again or finish -/
 def afterWake (q c need : Nat) : Pc := if need = 0 then .serialDone c else .wakeLoop q c need
@@ -173,7 +176,9 @@ def step (count queues : Nat) (s : St) : Ev → Option St
         let s1 := { s with counter := old + 1, rnd := upd s.rnd f (s.rnd f + 1),
                            entered := upd s.entered (s.rnd f + 1) (s.entered (s.rnd f + 1) + 1) }
         if (old + 1) % count = 0 then
-          some { s1 with serials := s.serials + 1, pc := upd s.pc f (.wakeLoop qi c (count - 1)) }
+          some { s1 with serials := s.serials + 1,
+                         told := upd s.told (s.rnd f + 1) (s.told (s.rnd f + 1) + 1),
+                         pc := upd s.pc f (.wakeLoop qi c (count - 1)) }
         else some { s1 with pc := upd s.pc f (.arrived qi c) }
       else none
     | _ => none
